@@ -228,3 +228,26 @@ def run_unit(name, kind, cname=None, tier='quick'):
     if kind == 'tr': return unit_translation(cname)
     if kind == 'down': return unit_downstream()
     return unit_bounded(tier)
+
+
+def unit_eos(cname):
+    """C03: thermodynamic consistency of the fields returned by the radiative-shock wrappers (profiles abstract): sie = p/((gamma-1) rho) with the instance's gamma, radiation energy density = a_r T_rad^4."""
+    res = {'obligations': [], 'functions': [], 'engine_errors': []}; O = res['obligations']
+    for m in ('setup_solver', '_run'):
+        fv = R.find_method(WR + ':' + cname, m)
+        if fv is not None: res['functions'].append({'ref': 'exactpack/solvers/radshocks/nED_radshocks.py::%s.%s' % (cname, m), 'sha256_16': R.source_hash(fv)})
+    base = 'C03/radshock/%s' % cname
+    try:
+        paths = wrapper_paths(cname, {})
+    except Unsupported as u_:
+        O.append(core.Obl(base + '/extraction', 'open', 'extraction', 0.0, detail=str(u_)[:300])); return res
+    rets = [p for p in paths if p.outcome == 'return' and isinstance(p.value, Solution)]
+    if len(rets) != 1: O.append(core.Obl(base + '/extraction', 'open', 'extraction', 0.0, detail='%d returning paths' % len(rets))); return res
+    F = {k: sp.sympify(v) for k, v in rets[0].value.fields().items()}
+    O.append(core.prove_zero(base + '/eos:p=(gamma-1)*rho*e', F['pressure'] - (gam - 1) * F['density'] * F['specific_internal_energy'], [gam > 1], goal_text='pressure == (gamma - 1) density sie with the gamma of the instance'))
+    if 'rade' in F:
+        Tn = 'temperature_rad' if 'temperature_rad' in F else 'temperature'
+        ar = sp.Rational('137.20172')
+        O.append(core.prove_zero(base + '/rade=ar*T^4', F['rade'] - ar * F[Tn] ** 4, [gam > 1], goal_text='radiation energy density == a_r (%s)^4, a_r = 137.20172 erg/cm^3/eV^4' % Tn))
+    for o in O: o.pop('cex_raw', None)
+    return res
